@@ -25,6 +25,8 @@ from core import Case, q, qs, qpts, fr, show_list, show_pts, show_pts2
 import gen as G
 
 PID = 'C20'
+FLOAT_KINDS = {'isleft', 'wn', 'hull', 'frange', 'voxgrid', 'fcpc', 'fcps'}      # float-mode companion (core.float_companion)
+FLOAT_TOL = 1e-9
 STATS = G.STATS
 TOL_RAY = F((1 << 8) * sys.float_info.epsilon)      # default of ray.intersect = 2^-44
 TOL_VOX = F(10e-8)                                   # default padding of the voxel in/out test
